@@ -1008,25 +1008,34 @@ func (r *Raft) sendAppendEntriesToPeers() {
 	r.operationManager.round++
 	round := r.operationManager.round
 
+	// The lease that this round may renew is counted from now, before any request is sent.
+	sent := time.Now()
+
 	// Handle the single node cluster case.
 	if r.isSingleServerCluster() {
 		if r.log.LastIndex() > r.commitIndex {
 			r.commitCond.Broadcast()
 		}
-		r.tryApplyReadOnlyOperations(round)
+		r.tryApplyReadOnlyOperations(round, sent)
 	}
 
 	numResponses := 1
 	for id, address := range r.configuration.Members {
 		if id != r.id {
-			go r.sendAppendEntries(id, address, &numResponses, round)
+			go r.sendAppendEntries(id, address, &numResponses, round, sent)
 		}
 	}
 }
 
 // sendAppendEntries sends an AppendEntries RPC to a node with the provided ID
 // and address.
-func (r *Raft) sendAppendEntries(id string, address string, numResponses *int, round uint64) {
+func (r *Raft) sendAppendEntries(
+	id string,
+	address string,
+	numResponses *int,
+	round uint64,
+	sent time.Time,
+) {
 	r.mu.Lock()
 	defer r.mu.Unlock()
 
@@ -1101,7 +1110,7 @@ func (r *Raft) sendAppendEntries(id string, address string, numResponses *int, r
 	if numResponses != nil && r.isVoter(id) {
 		*numResponses += 1
 		if r.hasQuorum(*numResponses) {
-			r.tryApplyReadOnlyOperations(round)
+			r.tryApplyReadOnlyOperations(round, sent)
 			numResponses = nil
 		}
 	}
@@ -2027,9 +2036,9 @@ func (r *Raft) stepdown() {
 
 // tryApplyReadOnlyOperations renews the lease and notifies the read-only
 // loop that it may be possible to apply some read-only operations.
-func (r *Raft) tryApplyReadOnlyOperations(round uint64) {
+func (r *Raft) tryApplyReadOnlyOperations(round uint64, sent time.Time) {
 	r.operationManager.markAsVerifiedBy(round)
-	r.operationManager.leaderLease.renew()
+	r.operationManager.leaderLease.renewFrom(sent)
 	r.operationManager.shouldVerifyQuorum = true
 	r.readOnlyCond.Broadcast()
 }
